@@ -220,8 +220,12 @@ Proof.
   - rewrite node_secs_sn_dn. apply derives_nil.
   - destruct Hi as [Hs Hf]. specialize (IH (path ++ [k]) false).
     destruct (t_dotted sub) eqn:Ed.
-    + rewrite node_secs_SD. specialize (IH (S n) Hs). rewrite Len in IH. specialize (IH Hli Hpk Hne).
-      unfold stm in IH. rewrite Ed in IH. apply IH; [discriminate|discriminate].
+    + specialize (IH (S n) Hs). rewrite Len in IH. specialize (IH Hli Hpk Hne). unfold stm in IH. rewrite Ed in IH.
+      destruct (has_line sub) eqn:Hln.
+      * rewrite node_secs_SD. apply IH; [discriminate|discriminate].
+      * (* no line left: the table is only mentioned by the headers below it *)
+        assert (El : line_stmts dval (sb_tbl sub) = []) by (unfold line_stmts; rewrite (proj1 (has_line_dpart false sub Hs) Hln); reflexivity).
+        rewrite node_secs_ST. unfold body_stmts. rewrite El. cbn [app]. apply IH; [discriminate|discriminate].
     + rewrite node_secs_ST. destruct Hli as [Hh Hls]. specialize (IH 0 Hs). rewrite Len in IH. specialize (IH Hls Hpk Hne).
       unfold stm in IH. rewrite Ed in IH. unfold own_hdr in IH. rewrite (hdr_printed_shown false sub _ false Hs Hne) in IH. cbn [orb] in IH.
       destruct (shown sub); cbn [negb]; apply IH; auto; discriminate.
